@@ -252,6 +252,19 @@ def _find_cycles(graph):
     return nontrivial_components
 
 
+def _location_of_node(node, ir):
+    """Returns a source location for reporting the object named by `node`.
+
+    Generated fields such as `$size_in_bytes` have no location of their own;
+    a cycle through one of them is reported at the enclosing structure.
+    """
+    node_object = ir_util.find_object(node, ir)
+    location = node_object.source_location
+    if location is None or location.is_synthetic or location.start.line == 0:
+        return ir_util.find_parent_object(node, ir).source_location
+    return location
+
+
 def _find_object_dependency_cycles(ir):
     """Finds dependency cycles in types in the ir."""
     dependencies, find_dependency_errors = _find_dependencies(ir)
@@ -270,7 +283,7 @@ def _find_object_dependency_cycles(ir):
         error_group = [
             error.error(
                 cycle_list[0][0],
-                node_object.source_location,
+                _location_of_node(cycle_list[0], ir),
                 "Dependency cycle\n" + node_object.name.name.text,
             )
         ]
@@ -278,7 +291,7 @@ def _find_object_dependency_cycles(ir):
             node_object = ir_util.find_object(node, ir)
             error_group.append(
                 error.note(
-                    node[0], node_object.source_location, node_object.name.name.text
+                    node[0], _location_of_node(node, ir), node_object.name.name.text
                 )
             )
         errors.append(error_group)
